@@ -252,15 +252,15 @@ Definition region_lt_region (a b : area) : bool :=
   if contains (aloc a) (aloc b) && negb (contains (aloc b) (aloc a)) then true
   else pair_lt (ckey (aloc a)) (ckey (aloc b)).
 
-(* the insertion loop of add_region: index of the new region or ValueError on an overlap *)
-Fixpoint region_index (a : area) (existing : list area) (i : nat) : res nat :=
+(* add_region: ValueError when the new region overlaps ANY existing region, then the insertion loop: the index of the
+   first existing region the new one is less than *)
+Fixpoint region_pos (a : area) (existing : list area) (i : nat) : nat :=
   match existing with
-  | [] => Ok i
-  | x :: r =>
-    if overlap (aloc a) (aloc x) then Err E_Value
-    else if region_lt_region a x then Ok i
-    else region_index a r (S i)
+  | [] => i
+  | x :: r => if region_lt_region a x then i else region_pos a r (S i)
   end.
+Definition region_index (a : area) (existing : list area) (i : nat) : res nat :=
+  if existsb (fun x => overlap (aloc a) (aloc x)) existing then Err E_Value else Ok (region_pos a existing i).
 
 Definition add_region (st : state) (a : area) : res state :=
   do index <- region_index a (areas_of (sareas st) (sregs st)) 0;
